@@ -100,7 +100,11 @@ def _quota_pred(ctx, func):
         rets = [n for n in callee.own_nodes() if isinstance(n, ast.Return)]
         if not rets or len(callee.params) != 1:
             return False
-        return all(r.value is not None and is_quota_cmp(r.value, callee.params[0], callee) for r in rets)
+        if all(r.value is not None and is_quota_cmp(r.value, callee.params[0], callee) for r in rets):
+            return True
+        from ..symret import guarded_returns
+        gr = guarded_returns(callee.node)       # the same predicate written through locals / a conditional expression
+        return bool(gr) and all(e_ is not None and is_quota_cmp(e_, callee.params[0], callee) for _, e_, _ in gr)
 
     def pred(cond, var, cfunc, negated):
         if negated:
